@@ -71,6 +71,8 @@ def run(ctx):
 
     def cls(lf):
         c = rm_classes.get(lf, "")
+        if c.startswith("cpu-untouched"):
+            return "cpu-untouched"
         return "unspecified" if c.startswith("unspecified") else c
 
     def analyse(name, path, ty, want_reset, forbid, extra_args=()):
@@ -105,8 +107,8 @@ def run(ctx):
         return st, ma, written
 
     # CPU reset
-    analyse("cpu_reset", RM + "::cpu_reset", RM, {"cpu"}, {"master", "never"})
-    analyse("Machine::cpu_reset", MACHINE + "::cpu_reset", MACHINE, {"cpu"}, {"master", "never"})
+    analyse("cpu_reset", RM + "::cpu_reset", RM, {"cpu"}, {"master", "never", "cpu-untouched"})
+    analyse("Machine::cpu_reset", MACHINE + "::cpu_reset", MACHINE, {"cpu"}, {"master", "never", "cpu-untouched"})
     # master reset
     analyse("master_reset", RM + "::master_reset", RM, {"cpu", "master"}, {"never"})
     analyse("Machine::master_reset", MACHINE + "::master_reset", MACHINE, {"cpu", "master"}, {"never"})
